@@ -550,7 +550,7 @@ func (s *MemoryBackend) ReadUsersetTuples(
 			for _, allowedType := range filter.AllowedUserTypeRestrictions {
 				if allowedType.GetType() == userType && allowedType.GetRelation() == userRelation {
 					matches = append(matches, t)
-					continue
+					break // add the tuple once, even if several (duplicated) restrictions admit it
 				}
 			}
 
